@@ -51,6 +51,7 @@ type Ctx struct {
 	analysedP map[string]bool
 	extra     map[string]any
 	notes     []string
+	mute      map[string]bool // rules of another property whose discharged obligations are not recorded here
 }
 
 func (c *Ctx) rel(p token.Pos) string {
@@ -72,6 +73,9 @@ func (c *Ctx) Rule(id string, floor int, doc string) {
 }
 
 func (c *Ctx) Check(rule, key string, pos token.Pos, ok bool, detail string, witness ...string) bool {
+	if ok && c.mute[rule] {
+		return ok
+	}
 	o := Ob{Rule: rule, Key: key, Pos: c.rel(pos), OK: ok}
 	if !ok {
 		o.Detail = detail
